@@ -109,3 +109,11 @@ CHECKS.append({
     "level_note": _RS_NOTE,
 })
 NOT_APPLICABLE[:] = [n for n in NOT_APPLICABLE if n["property_id"] not in {c["id"] for c in CHECKS}]
+RUNNERS["C17"] = ("tables_check", "main", ())
+CHECKS.append({
+    "id": "C17", "engine": "rsym", "level": "other", "design_ref": "DESIGN.md section 4 / C17",
+    "technique": "the Rust static opcode table read through the crate's LLVM IR with a symbolic opcode index (rsym) and compared by z3, field by field for all 256 entries, with the entry derived from the Python table; register widths / IMEM offsets / address-space constants compared over symbolic indices; view segments decided disjoint and in range over an arbitrary 32-bit address",
+    "level_text": "Finite data compared completely: z3 decides for all 256 opcode values that kind, name, condition, operand order, operand count and every operand's shape/width/register of the Rust OPCODES entry equal the Python opcode_table entry (mapping of scripts/generate_llama_opcodes.py, with EMemIMem data widths taken from the table itself); that arch.py, decoder, emulator and Rust mask_for agree on every register width and sub-register layout; that Python IMEMRegisters and the crate's IMEM_* constants, address-space constants and reset vector agree; and that each Binary Ninja view's segments are pairwise disjoint, inside the address space and place internal RAM at INTERNAL_MEMORY_START. Private Rust constants are compared behaviourally by C06.",
+    "level_note": _RS_NOTE,
+})
+NOT_APPLICABLE[:] = [n for n in NOT_APPLICABLE if n["property_id"] not in {c["id"] for c in CHECKS}]
